@@ -3,7 +3,7 @@
 //! and `SimScheduler` decides every interleaving.
 
 use crate::codec;
-use crate::common::{first_diff, is_prefix, End};
+use crate::common::{first_diff, is_prefix, structure_reach, End};
 use crate::lz;
 use crate::sched::{Record, SimScheduler};
 use shuttle::{Config, MaxSteps, Runner};
@@ -918,6 +918,9 @@ fn exec_reader(case: &Case, data: &Arc<Vec<u8>>, ctx: &mut Ctx) -> Option<Violat
     }
     ctx.fire("storage_fault", applied);
     ctx.bytes("stream", &stream);
+    if applied == 0 {
+        structure_reach(ctx, if case.fmt == "lzma2mt" { "lzma2" } else { "lzip" }, &stream);
+    }
     let cap = data.len() + (1 << 20);
     let faulty_run = applied > 0 || !case.src_faults.is_empty();
     let (st_out, st_end) = st_decode(case, &stream, cap, faulty_run);
